@@ -641,8 +641,9 @@ impl<'a> Walker<'a> {
             Stmt::Loop { count, body } => match self.eval(count) {
                 V::Num(n) if (0..=64).contains(&n) => {
                     let an = self.anon[&(s as *const Stmt)];
-                    let scope_name = format!("$scope_{}", an);
                     for i in 0..n {
+                        // every iteration has its own scope `$scope_<n>_<index>`
+                        let scope_name = format!("$scope_{}_{}", an, i);
                         let idx_path = self.scope_path(&format!("{}.index", scope_name));
                         self.set_overlay(&idx_path, Sym::Num(i));
                         self.with_scope(&scope_name, true, body);
